@@ -223,7 +223,8 @@ def World.fileOf (w : World) (reader : Nat) : Option Nat := (w.heap[reader]?).bi
 /-- `kind(src, closefd=cfd)` for every reader type -/
 def World.mkReader (w : World) (kind name : String) (src : Src) (cfd : Option Bool) : Option World :=
   match kind with
-  | "romfs" | "exefs" | "cci" | "cia" | "nand" | "diff" | "disa" | "ncch-plain" | "ncch-split" | "ncch-simple" =>
+  | "romfs" | "exefs" | "cci" | "cia" | "nand" | "diff" | "disa" | "diff-ext" | "disa-ext" | "ncch-plain" | "ncch-split"
+  | "ncch-simple" =>
     match w.openFile name src cfd with
     | none => none
     | some (w, f, c) =>
@@ -263,10 +264,12 @@ def World.mkReader (w : World) (kind name : String) (src : Src) (cfd : Option Bo
           let (w, w3) := w.alloc (name ++ "." ++ pn ++ ".lv3win") (window p)
           let (w, d) := w.alloc (name ++ "." ++ pn ++ ".lv3") { through := [w3] }
           let (w, _) := w.alloc (name ++ "." ++ pn ++ ".level") (window d)
+          -- external level 4 (`enable_external_ivfc_lv4`): the level-4 file is a window on the PARTITION window, not on level 3
+          let w := if kind = "diff-ext" || kind = "disa-ext" then (w.alloc (name ++ "." ++ pn ++ ".lv4ext") (window p)).1 else w
           let (w, part) := w.alloc (name ++ "." ++ pn) { tracked := [d, p] }
           let w := w.setKind (name ++ "." ++ pn) "partition"
           w.track r part
-        some ((if kind = "disa" then ["p0", "p1"] else ["p0"]).foldl mkPart w)
+        some ((if kind = "disa" || kind = "disa-ext" then ["p0", "p1"] else ["p0"]).foldl mkPart w)
   | "cdn" | "sdtitle" =>
     -- directory based: no file of its own; content 0 is opened from the filesystem
     let (w, r) := w.alloc name { closeOnce := true }
@@ -319,7 +322,10 @@ def World.openHandle (w : World) (reader hk hname : String) : Option World :=
     else if is "nand" "ctr-0" then (w.id? (reader ++ ".ctr_old")).map fun b => (w.openWindow hname r b).1
     else if is "partition" "lv4" then
       match w.id? (reader ++ ".lv3"), w.id? (reader ++ ".level") with
-      | some d, some l => some (w.alloc hname { look := some d, through := [l] }).1
+      | some d, some l =>
+        match w.id? (reader ++ ".lv4ext") with
+        | some e => some (w.alloc hname { look := some d, through := [l, e] }).1
+        | none => some (w.alloc hname { look := some d, through := [l] }).1
       | _, _ => none
     else none
   | _, _ => none
